@@ -189,12 +189,20 @@ func (gtidSet MariadbGTIDSet) AddGTID(other GTID) GTIDSet {
 	for i, gtid := range gtidSet {
 		if mdbOther.Domain == gtid.Domain {
 			if mdbOther.Sequence > gtid.Sequence {
-				gtidSet[i] = mdbOther
+				// GTIDSets are immutable: update a copy, never the receiver.
+				newSet := make(MariadbGTIDSet, len(gtidSet))
+				copy(newSet, gtidSet)
+				newSet[i] = mdbOther
+				return newSet
 			}
 			return gtidSet
 		}
 	}
-	return append(gtidSet, mdbOther)
+	// Copy as well: appending in place could write into a backing array that is
+	// shared with sets derived from the receiver earlier.
+	newSet := make(MariadbGTIDSet, len(gtidSet), len(gtidSet)+1)
+	copy(newSet, gtidSet)
+	return append(newSet, mdbOther)
 }
 
 func init() {
